@@ -33,7 +33,13 @@ Mid(h) == {
 Other(h) == {   \* node kinds outside the polynomial fragment (flatten / fold must cope)
   Cmp(h, "<", h), IfE(bb, h, h), Call(ff, << h >>), B("FloorDiv", h, L), B("Remainder", h, L),
   N("Min", << h, h >>), CSE0(h), B("Sub", tt, h), U("BitNot", h), N("Tup", << h, h >>),
-  B("Power", h, h), N("LogAnd", << Cmp(h, "<", L), bb >>), B("LShift", h, KI(1)) }
+  B("Power", h, h), N("LogAnd", << Cmp(h, "<", L), bb >>), B("LShift", h, KI(1)),
+  \* neutral elements as operands of the non-polynomial kinds - literally and as what an operand
+  \* flattens / folds to: x % 1 is 0 and x // 1 is floor(x), not x
+  B("FloorDiv", h, KI(1)), B("Remainder", h, KI(1)), B("Remainder", h, N("Product", << KI(1), KI(1) >>)),
+  B("FloorDiv", h, N("Sum", << KI(1) >>)), B("Remainder", h, N("Sum", << KI(0), KI(1) >>)),
+  B("Remainder", KI(1), h), B("FloorDiv", KI(0), h), B("LShift", h, KI(0)), B("RShift", h, KI(0)),
+  B("Remainder", h, KI(-1)), B("Quotient", h, N("Product", << KI(1), KI(1) >>)) }
 Top(h) == { N("Sum", << h, L >>), N("Product", << h, L >>), N("Product", << L, h >>),
             B("Power", h, KI(2)), B("Quotient", h, L), N("Sum", << h, h >>) }
 
